@@ -102,6 +102,7 @@ def check(ctx):
     d6_domains(ctx, idx, fam)
     d6_range(ctx, idx, fam)
     d7_answers(ctx, idx, fam)
+    d7_revalidate(ctx, idx, fam)
 
 
 class Family(object):
@@ -862,12 +863,12 @@ CROSS_RULES = [
     Cross('answers container type', LGQ + 'schema_answers', 'not isinstance(answers_tuple, tuple)',
           'answers must be a list or a tuple of lists (also enforced by the schema)', optional=True),
     Cross('equal list lengths', LGQ + 'schema_answers', 'len(_L) != len(answers_tuple[0])',
-          'alternative answer lists must have the same length', loop='answers_tuple', bypass_ok=['isinstance(answers_tuple, list) and not answers_tuple']),
+          'alternative answer lists must have the same length', loop='answers_tuple', bypass_ok=['not answers_tuple', 'len(answers_tuple) == 0']),
     Cross('answer/subgrader count', LGQ + 'schema_answers',
           "self.subgrader_list and len(self.config['subgraders']) != len(answers_tuple[0])",
-          'a list of subgraders must match the number of answers', bypass_ok=['isinstance(answers_tuple, list) and not answers_tuple']),
+          'a list of subgraders must match the number of answers', bypass_ok=['not answers_tuple', 'len(answers_tuple) == 0']),
     Cross('unordered + subgrader list', LGQ + 'schema_answers', "self.subgrader_list and not self.config['ordered']",
-          'unordered lists only with a single subgrader', bypass_ok=['isinstance(answers_tuple, list) and not answers_tuple']),
+          'unordered lists only with a single subgrader', bypass_ok=['not answers_tuple', 'len(answers_tuple) == 0']),
     Cross('grouping contiguity', LGQ + 'create_grouping_map',
           ['set(grouping) != set(range(1, max(set(grouping)) + 1))', 'set(grouping) != set(range(1, max(grouping) + 1))'],
           'groups must be numbered 1..n without gaps', recognise=_contiguity_form),
@@ -978,6 +979,23 @@ def _atoms(conjuncts):
         if is_var(e):
             out.append((unparse(e), 'truthy', not neg))
             continue
+        if isinstance(e, ast.Call) and isinstance(e.func, ast.Name) and e.func.id == 'isinstance' and len(e.args) == 2 \
+                and is_var(e.args[0]) and isinstance(e.args[1], ast.Name):
+            out.append((unparse(e.args[0]), 'type' if not neg else 'not-type', e.args[1].id))
+            continue
+        if isinstance(e, ast.Compare) and len(e.ops) == 1 and not neg and isinstance(e.ops[0], (ast.Eq, ast.NotEq)):
+            l_, r_ = e.left, e.comparators[0]
+            if isinstance(r_, ast.Call):
+                l_, r_ = r_, l_
+            if isinstance(l_, ast.Call) and isinstance(l_.func, ast.Name) and l_.func.id == 'len' and len(l_.args) == 1 \
+                    and is_var(l_.args[0]) and isinstance(r_, ast.Constant) and isinstance(r_.value, int):
+                if isinstance(e.ops[0], ast.Eq):
+                    out.append((unparse(l_.args[0]), 'truthy', r_.value > 0))
+                elif r_.value == 0:
+                    out.append((unparse(l_.args[0]), 'truthy', True))
+                else:
+                    out.append((unparse(l_.args[0]), 'free', None))
+                continue
         if isinstance(e, ast.Compare) and len(e.ops) == 1 and not neg:
             l, rgt = e.left, e.comparators[0]
             if is_var(rgt) and not is_var(l):
@@ -1014,6 +1032,18 @@ def _compatible(atoms):
             if 'truthy' in st and st['truthy'] != t:
                 return False
             st['truthy'] = t
+        elif kind == 'type':
+            if st.get('type', v) != v and {st.get('type'), v} <= {'list', 'tuple', 'dict', 'str', 'set', 'int', 'float'}:
+                return False
+            if v in st.get('not-type', []):
+                return False
+            st['type'] = v
+        elif kind == 'not-type':
+            if st.get('type') == v:
+                return False
+            st.setdefault('not-type', []).append(v)
+        elif kind == 'free':
+            pass
         else:
             st.setdefault('not', []).append(v)
     for st in state.values():
@@ -1022,13 +1052,38 @@ def _compatible(atoms):
     return True
 
 
+def full_guards_of(node, fn_node):
+    """Like guards_of, but an elif / else also carries the negations of the earlier tests of its chain."""
+    chain = []
+    child = node
+    for a in ancestors(node):
+        if a is fn_node:
+            break
+        if isinstance(a, ast.If):
+            if any(child is s_ for s_ in a.body):
+                chain.append(nf.conjuncts(nf.canon(a.test)))
+            elif any(child is s_ for s_ in a.orelse):
+                chain.append(nf.conjuncts(nf.negate(nf.canon(a.test))))
+        elif isinstance(a, ast.While):
+            chain.append(nf.conjuncts(nf.canon(a.test)))
+        child = a
+    out = []
+    for c_ in reversed(chain):
+        out.extend(c_)
+    return out
+
+
 def _judge_bypass(c, fi, R, conj):
     """('ok'|'violation'|'undecided', return stmt, guard text, witness text) for an early return that precedes a cross-rule check."""
-    gs = guards_of(R, fi.node)
+    gs = full_guards_of(R, fi.node)
     gtext = ' and '.join(unparse(g) for g in gs) or 'always'
-    gconj = gs[0] if len(gs) == 1 else (ast.BoolOp(op=ast.And(), values=list(gs)) if gs else None)
-    if gconj is not None and any(nf.classify(p_, gconj) == nf.MATCH for p_ in c.bypass_ok):
-        return ('ok', R, gtext, '')
+    for p_ in c.bypass_ok:
+        # reviewed early exit: its key condition is present and every other condition on the path only concerns the same variable(s)
+        key = [g for g in gs if nf.classify(p_, g) == nf.MATCH]
+        if key:
+            names = lib.names_in(key[0])
+            if all(g is key[0] or (lib.names_in(g) - {'isinstance', 'len', 'list', 'tuple', 'dict', 'str'}) <= names for g in gs):
+                return ('ok', R, gtext, '')
     ca = _atoms(nf.conjuncts(conj))
     if ca is None and c.loop is not None and '_' not in c.loop.replace('self.', '').split('[')[0][:1] and not c.loop.startswith('_'):
         # a per-element check inside `for x in IT`: it applies whenever IT is non-empty (the elements are free)
@@ -1041,7 +1096,7 @@ def _judge_bypass(c, fi, R, conj):
     wit = []
     seen = set()
     for key, kind, v in ga + ca:
-        if key in seen:
+        if key in seen or kind in ('type', 'not-type', 'free'):
             continue
         seen.add(key)
         vals = [x for x in ga + ca if x[0] == key]
@@ -1064,8 +1119,7 @@ def _expand_quantifiers(guards, loops):
         if isinstance(call, ast.UnaryOp) and isinstance(call.op, ast.Not):
             call, neg = call.operand, True
         if not (isinstance(call, ast.Call) and isinstance(call.func, ast.Name) and call.func.id in ('any', 'all')
-                and len(call.args) == 1 and isinstance(call.args[0], (ast.GeneratorExp, ast.ListComp))
-                and len(call.args[0].generators) == 1):
+                and len(call.args) == 1 and isinstance(call.args[0], (ast.GeneratorExp, ast.ListComp))):
             continue
         comp = call.args[0]
         gen = comp.generators[0]
@@ -1075,8 +1129,8 @@ def _expand_quantifiers(guards, loops):
             inner = nf.conjuncts(nf.negate(nf.canon(comp.elt)))
         else:
             continue
-        inner = inner + [nf.canon(x) for x in gen.ifs]
-        alts.append((guards[:i] + guards[i + 1:] + inner, list(loops) + [gen.iter]))
+        inner = inner + [nf.canon(x) for g_ in comp.generators for x in g_.ifs]
+        alts.append((guards[:i] + guards[i + 1:] + inner, list(loops) + [g_.iter for g_ in comp.generators]))
     return alts
 
 
@@ -1112,16 +1166,100 @@ def _followed_callees(idx, fi, anchors):
     return out
 
 
+def reaching_inline(expr, fi, at_stmt, depth=4):
+    """Substitute local names in expr by the value of the unique plain assignment that reaches at_stmt (flow-sensitive:
+    a name assigned in several places is still seen through where only one of the assignments can reach the statement)."""
+    fn = fi.node
+    fcfg = cfg_of(fn)
+    args = fn.args
+    params = {a.arg for a in args.posonlyargs + args.args + args.kwonlyargs}
+    if args.vararg:
+        params.add(args.vararg.arg)
+    if args.kwarg:
+        params.add(args.kwarg.arg)
+    defs = {}
+    for n in walk_own(fn):
+        if isinstance(n, ast.Assign):
+            for t in n.targets:
+                for x in ast.walk(t):
+                    if isinstance(x, ast.Name) and isinstance(x.ctx, ast.Store):
+                        plain = len(n.targets) == 1 and isinstance(n.targets[0], ast.Name)
+                        defs.setdefault(x.id, []).append((n, n.value if plain else None))
+        elif isinstance(n, (ast.AugAssign, ast.AnnAssign)) and isinstance(n.target, ast.Name):
+            defs.setdefault(n.target.id, []).append((n, None))
+        elif isinstance(n, (ast.For, ast.comprehension)):
+            for x in ast.walk(n.target):
+                if isinstance(x, ast.Name):
+                    defs.setdefault(x.id, []).append((n if isinstance(n, ast.For) else None, None))
+        elif isinstance(n, (ast.With,)):
+            for it in n.items:
+                if it.optional_vars is not None:
+                    for x in ast.walk(it.optional_vars):
+                        if isinstance(x, ast.Name):
+                            defs.setdefault(x.id, []).append((n, None))
+        elif isinstance(n, ast.ExceptHandler) and n.name:
+            defs.setdefault(n.name, []).append((None, None))
+    target_nodes = fcfg.nodes_of(at_stmt) or fcfg.nodes_containing(at_stmt)
+    cur = expr
+    for _ in range(depth):
+        env = {}
+        for name in lib.names_in(cur):
+            if name in params or name not in defs:
+                continue
+            ds = defs[name]
+            if any(d is None for d, v in ds):
+                continue
+            reaching = []
+            for d, v in ds:
+                dn = fcfg.nodes_of(d)
+                others = [x for d2, v2 in ds if d2 is not d for x in fcfg.nodes_of(d2)]
+                if dn and target_nodes and fcfg.reaches(dn, target_nodes, blocked=others):
+                    reaching.append((d, v))
+            if len(reaching) == 1 and reaching[0][1] is not None:
+                env[name] = reaching[0][1]
+        if not env:
+            break
+        new = nf.subst(cur, env)
+        if ast.dump(new) == ast.dump(cur):
+            break
+        cur = new
+    return cur
+
+
+def _literal_loop_envs(node, fn_node):
+    """Substitutions for the enclosing `for name in (<literals>)` loops of node (one per combination of elements), and
+    the iterables of the remaining (data) loops."""
+    envs = [{}]
+    data_loops = []
+    for a in ancestors(node):
+        if a is fn_node:
+            break
+        if isinstance(a, ast.For):
+            it = a.iter
+            if isinstance(it, (ast.Tuple, ast.List)) and it.elts and all(isinstance(e, ast.Constant) for e in it.elts) \
+                    and isinstance(a.target, ast.Name) and len(it.elts) <= 12:
+                envs = [dict(e, **{a.target.id: c}) for e in envs for c in it.elts]
+                if len(envs) > 64:
+                    return [{}], enclosing_loop_iters(node, fn_node)
+            else:
+                data_loops.append(a.iter)
+    return envs, data_loops
+
+
 def _sites_of(idx, fi):
-    """Raise sites of a function: (owner FuncInfo, raise node, [(guards, loops)], handler class names)."""
+    """Raise sites of a function: (owner, raise node, [(guards, loops)], handler class names, key).  A raise inside a loop
+    over a literal tuple stands for one site per element (the loop variable replaced by the element)."""
     sites = []
     for rs in lib.raises_of(fi.node):
         if rs.exc is None:
             continue
         gs = _loop_guards(rs, fi.node) + guards_of(rs, fi.node)
-        loops = enclosing_loop_iters(rs, fi.node)
+        envs, loops = _literal_loop_envs(rs, fi.node)
         h = lib.in_handler(rs)
-        sites.append((fi, rs, _expand_quantifiers(gs, loops), lib.handler_class_names(h) if h is not None else []))
+        hn = lib.handler_class_names(h) if h is not None else []
+        for i, env in enumerate(envs):
+            g2 = [nf.canon(nf.subst(g, env)) for g in gs] if env else gs
+            sites.append((fi, rs, _expand_quantifiers(g2, loops), hn, (id(rs), i)))
     return sites
 
 
@@ -1146,15 +1284,15 @@ def d5_cross(ctx, idx, fam):
                 sites.extend(_sites_of(idx, h))
             used = set()
             missing = []
-            for c in rules:
-                construct = 'cross-rule [%s] in %s' % (c.key, c.func.split('.', 1)[1].replace('mitxgraders.', ''))
+
+            def candidates(c, want_diffs):
                 exact, diffs = [], []
-                for (owner, rs, alts, hnames) in sites:
-                    if id(rs) in used:
+                for (owner, rs, alts, hnames, key) in sites:
+                    if key in used:
                         continue
                     if c.handler is not None:
                         if c.handler in hnames:
-                            exact.append((owner, rs, None))
+                            exact.append((owner, rs, None, key))
                         continue
                     for gs, loops in alts:
                         if not gs:
@@ -1163,20 +1301,43 @@ def d5_cross(ctx, idx, fam):
                             continue
                         conj = gs[0] if len(gs) == 1 else ast.BoolOp(op=ast.And(), values=list(gs))
                         if c.inline:
-                            conj = lib.inline_locals(conj, owner.node, depth=c.inline)
-                        res = nf.classify(list(c.patterns), conj)
+                            plain = lib.inline_locals(conj, owner.node, depth=c.inline)
+                            res = nf.classify(list(c.patterns), plain)
+                            if res != nf.MATCH:
+                                flow = reaching_inline(conj, owner, rs, depth=c.inline)
+                                res2 = nf.classify(list(c.patterns), flow)
+                                if res2 == nf.MATCH or (isinstance(res2, tuple) and not isinstance(res, tuple)):
+                                    plain, res = flow, res2
+                            conj = plain
+                        else:
+                            res = nf.classify(list(c.patterns), conj)
                         if res != nf.MATCH and c.recognise is not None and owner is fi:
                             alt = c.recognise(owner, conj)
                             if alt is not None:
                                 res = alt
                         if res == nf.MATCH:
-                            exact.append((owner, rs, conj))
+                            exact.append((owner, rs, conj, key))
                             break
-                        if isinstance(res, tuple) and owner is fi:
-                            diffs.append((owner, rs, res, conj))
+                        if want_diffs and isinstance(res, tuple) and owner is fi:
+                            diffs.append((owner, rs, res, conj, key))
+                return exact, diffs
+
+            # pass 1: exact matches claim their sites first, so that a changed-condition verdict is only ever given
+            # about a site that no rule recognises
+            assigned = {}
+            for c in rules:
+                exact, _ = candidates(c, False)
                 if exact:
-                    owner, rs, conj = exact[0]
-                    used.add(id(rs))
+                    assigned[c.key] = exact[0]
+                    used.add(exact[0][3])
+            for c in rules:
+                construct = 'cross-rule [%s] in %s' % (c.key, c.func.split('.', 1)[1].replace('mitxgraders.', ''))
+                exact = [assigned[c.key]] if c.key in assigned else []
+                diffs = []
+                if not exact:
+                    _, diffs = candidates(c, True)
+                if exact:
+                    owner, rs, conj, key_ = exact[0]
                     where = lib.loc(owner, rs)
                     if c.optional:
                         continue
@@ -1212,8 +1373,8 @@ def d5_cross(ctx, idx, fam):
                         continue
                     r.ok(construct, 'raises %s when %s' % (cls, short(conj) if conj is not None else 'parsing fails'), where)
                 elif diffs and not c.optional:
-                    owner, rs, res, conj = diffs[0]
-                    used.add(id(rs))
+                    owner, rs, res, conj, key_ = diffs[0]
+                    used.add(key_)
                     r.violation(construct, "the condition that enforces '%s' changed: %s" % (c.what, res[1]), lib.loc(owner, rs),
                                 expected=c.patterns[0], found=short(conj))
                 elif not c.optional:
@@ -1221,8 +1382,8 @@ def d5_cross(ctx, idx, fam):
             if missing:
                 leftover = []
                 dead = []
-                for (o, rs, alts, hn) in sites:
-                    if id(rs) in used:
+                for (o, rs, alts, hn, key_) in sites:
+                    if key_ in used:
                         continue
                     ocfg = cfg_of(o.node)
                     nodes = ocfg.nodes_of(rs)
@@ -2030,6 +2191,258 @@ def d7_answers(ctx, idx, fam):
                 "the normalised answers are not stored back into config['answers']", li.loc)
 
 
+# ------------------------------------------------------------------- D7 (re-validation)
+SHAPES = ('list0', 'list1', 'list2+', 'tuple0', 'tuple1+', 'other')
+EMPTY_SHAPES = ('list0', 'tuple0')
+
+
+class _ShapeRun(object):
+    """Abstract run of an answers normaliser over the finite shape domain of its answers parameter.
+
+    Only tests about the parameter are decided (isinstance list/tuple, truthiness, len == / != k); every other test is
+    explored both ways; `for x in p` over an empty p runs zero times; a generator / comprehension over an empty p evaluates
+    none of its elements.  Records every constant subscript `p[k]` evaluated while p is empty."""
+
+    def __init__(self, fi, param):
+        self.fi = fi
+        self.p = param
+        self.bad = []       # (subscript node, shape)
+        self.outs = set()   # shapes returned
+        self.budget = 4000
+
+    def is_p(self, e):
+        return isinstance(e, ast.Name) and e.id == self.p
+
+    def tv(self, e, shape):
+        if shape is None:
+            return None
+        if isinstance(e, ast.UnaryOp) and isinstance(e.op, ast.Not):
+            t = self.tv(e.operand, shape)
+            return None if t is None else not t
+        if self.is_p(e):
+            if shape in EMPTY_SHAPES:
+                return False
+            if shape in ('list1', 'list2+', 'tuple1+'):
+                return True
+            return None
+        if isinstance(e, ast.Call) and isinstance(e.func, ast.Name) and e.func.id == 'isinstance' and len(e.args) == 2 and self.is_p(e.args[0]):
+            kinds = [x.id for x in (e.args[1].elts if isinstance(e.args[1], ast.Tuple) else [e.args[1]]) if isinstance(x, ast.Name)]
+            if shape == 'other':
+                return False if set(kinds) <= {'list', 'tuple'} else None
+            return shape.startswith('list') and 'list' in kinds or shape.startswith('tuple') and 'tuple' in kinds
+        if isinstance(e, ast.Compare) and len(e.ops) == 1:
+            l, r_ = e.left, e.comparators[0]
+            if isinstance(r_, ast.Call):
+                l, r_ = r_, l
+            if isinstance(l, ast.Call) and isinstance(l.func, ast.Name) and l.func.id == 'len' and len(l.args) == 1 and self.is_p(l.args[0]) \
+                    and isinstance(r_, ast.Constant) and isinstance(r_.value, int) and shape != 'other':
+                n = {'list0': 0, 'tuple0': 0, 'list1': 1}.get(shape)
+                k = r_.value
+                op = e.ops[0]
+                if n is not None:
+                    return {ast.Eq: n == k, ast.NotEq: n != k, ast.Lt: n < k, ast.LtE: n <= k, ast.Gt: n > k, ast.GtE: n >= k}.get(type(op))
+                lo = 2 if shape == 'list2+' else 1
+                if isinstance(op, ast.Eq) and k < lo:
+                    return False
+                if isinstance(op, ast.NotEq) and k < lo:
+                    return True
+                return None
+        if isinstance(e, ast.BoolOp):
+            vals = [self.tv(v, shape) for v in e.values]
+            if isinstance(e.op, ast.And):
+                if any(v is False for v in vals):
+                    return False
+                return True if all(v is True for v in vals) else None
+            if any(v is True for v in vals):
+                return True
+            return False if all(v is False for v in vals) else None
+        return None
+
+    def scan(self, e, shape):
+        """Record subscripts of the empty parameter that evaluating e would evaluate."""
+        if e is None or shape not in EMPTY_SHAPES:
+            return
+        if isinstance(e, ast.BoolOp):
+            for v in e.values:
+                self.scan(v, shape)
+                t = self.tv(v, shape)
+                if (isinstance(e.op, ast.And) and t is False) or (isinstance(e.op, ast.Or) and t is True):
+                    return
+            return
+        if isinstance(e, ast.IfExp):
+            self.scan(e.test, shape)
+            t = self.tv(e.test, shape)
+            if t is not False:
+                self.scan(e.body, shape)
+            if t is not True:
+                self.scan(e.orelse, shape)
+            return
+        if isinstance(e, (ast.GeneratorExp, ast.ListComp, ast.SetComp, ast.DictComp)):
+            g0 = e.generators[0]
+            self.scan(g0.iter, shape)
+            if self.is_p(g0.iter):
+                return            # no element is evaluated
+            for part in ([e.elt] if not isinstance(e, ast.DictComp) else [e.key, e.value]):
+                self.scan(part, shape)
+            for g in e.generators:
+                for c_ in g.ifs:
+                    self.scan(c_, shape)
+            return
+        if isinstance(e, ast.Lambda):
+            return
+        if isinstance(e, ast.Subscript) and self.is_p(e.value) and isinstance(e.slice, ast.Constant) and isinstance(e.slice.value, int):
+            self.bad.append((e, shape))
+            return
+        for ch in ast.iter_child_nodes(e):
+            if isinstance(ch, ast.expr):
+                self.scan(ch, shape)
+            elif isinstance(ch, (ast.keyword, ast.comprehension)):
+                for x in ast.iter_child_nodes(ch):
+                    if isinstance(x, ast.expr):
+                        self.scan(x, shape)
+
+    def ret_shape(self, v, shape):
+        if v is None:
+            return None
+        if self.is_p(v):
+            return shape
+        if isinstance(v, ast.Call) and isinstance(v.func, ast.Name) and v.func.id in ('tuple', 'list') and not v.args:
+            return v.func.id + '0'
+        if isinstance(v, ast.Tuple):
+            return 'tuple0' if not v.elts else 'tuple1+'
+        if isinstance(v, ast.List):
+            return {0: 'list0', 1: 'list1'}.get(len(v.elts), 'list2+')
+        return None
+
+    def run(self, stmts, shape):
+        """Returns the set of shapes with which control falls off the end of stmts (empty when every path exits)."""
+        self.budget -= 1
+        if self.budget < 0:
+            raise AnalysisError('%s: too many paths in the shape analysis' % self.fi.qualname)
+        cur = {shape}
+        for i, st in enumerate(stmts):
+            nxt = set()
+            for sh in cur:
+                nxt |= self.step(st, sh)
+            cur = nxt
+            if not cur:
+                break
+        return cur
+
+    def step(self, st, sh):
+        if isinstance(st, ast.Return):
+            self.scan(st.value, sh)
+            self.outs.add(self.ret_shape(st.value, sh))
+            return set()
+        if isinstance(st, ast.Raise):
+            self.scan(st.exc, sh)
+            return set()
+        if isinstance(st, ast.If):
+            self.scan(st.test, sh)
+            t = self.tv(st.test, sh)
+            out = set()
+            if t is not False:
+                out |= self.run(st.body, sh)
+            if t is not True:
+                out |= self.run(st.orelse, sh)
+            return out
+        if isinstance(st, ast.For):
+            self.scan(st.iter, sh)
+            iter_is_p = self.is_p(st.iter) or (isinstance(st.iter, ast.Call) and isinstance(st.iter.func, ast.Name)
+                                               and st.iter.func.id in ('enumerate', 'zip', 'reversed', 'sorted', 'list', 'tuple')
+                                               and any(self.is_p(a) for a in st.iter.args))
+            if iter_is_p and sh in EMPTY_SHAPES:
+                return self.run(st.orelse, sh)
+            after = self.run(st.body, sh) | {sh}
+            out = set()
+            for a in after:
+                out |= self.run(st.orelse, a) if st.orelse else {a}
+            return out
+        if isinstance(st, ast.While):
+            self.scan(st.test, sh)
+            return self.run(st.body, sh) | {sh}
+        if isinstance(st, ast.Try):
+            out = self.run(st.body, sh)
+            for h in st.handlers:
+                out |= self.run(h.body, sh)
+            res = set()
+            for a in out | {sh}:
+                res |= self.run(st.orelse, a) if st.orelse else {a}
+            fin = set()
+            for a in res:
+                fin |= self.run(st.finalbody, a) if st.finalbody else {a}
+            return fin
+        if isinstance(st, ast.With):
+            for it in st.items:
+                self.scan(it.context_expr, sh)
+            return self.run(st.body, sh)
+        if isinstance(st, ast.Assign):
+            self.scan(st.value, sh)
+            for t in st.targets:
+                if isinstance(t, ast.Subscript):
+                    self.scan(t, sh)
+            if any(isinstance(t, ast.Name) and t.id == self.p for t in st.targets):
+                v = st.value
+                if isinstance(v, ast.Tuple) and len(v.elts) == 1 and self.is_p(v.elts[0]):
+                    return {'tuple1+'}
+                if isinstance(v, ast.List) and len(v.elts) == 1 and self.is_p(v.elts[0]):
+                    return {'list1'}
+                return {self.ret_shape(v, sh) or 'other'}
+            return {sh}
+        if isinstance(st, (ast.FunctionDef, ast.ClassDef, ast.Pass, ast.Import, ast.ImportFrom, ast.Global, ast.Nonlocal)):
+            return {sh}
+        for ch in ast.iter_child_nodes(st):
+            if isinstance(ch, ast.expr):
+                self.scan(ch, sh)
+        return {sh}
+
+
+REVALIDATED = [
+    ('mitxgraders.listgrader.ListGrader.schema_answers', ('list0', 'list2+', 'tuple1+')),
+    ('mitxgraders.baseclasses.ItemGrader.schema_answers', ('tuple0', 'tuple1+', 'other')),
+    ('mitxgraders.baseclasses.ItemGrader.post_schema_ans_val', ('tuple0', 'tuple1+')),
+    ('mitxgraders.listgrader.SingleListGrader.post_schema_ans_val', ('tuple0', 'tuple1+')),
+    ('mitxgraders.formulagrader.intervalgrader.IntervalGrader.post_schema_ans_val', ('tuple0', 'tuple1+')),
+    ('mitxgraders.listgrader.ListGrader.post_schema_ans_val', ('tuple0', 'tuple1+')),
+]
+SHAPE_TEXT = {'list0': 'the empty list', 'list1': 'a one-element list', 'list2+': 'a list of several answers', 'tuple0': 'the empty tuple',
+              'tuple1+': 'a non-empty tuple', 'other': 'a single answer'}
+
+
+def d7_revalidate(ctx, idx, fam):
+    r = ctx.rule('D7.REVALIDATE', 'the answers normalisers accept their own output: no shape they return (or the default) reaches a '
+                                  'subscript of an empty value', floor=6)
+    with r:
+        for q, legal in REVALIDATED:
+            fi = idx.func(q)
+            if len(fi.params) < 2:
+                raise AnalysisError('%s: no answers parameter' % q)
+            param = fi.params[1]
+            name = q.split('.', 1)[1].replace('mitxgraders.', '')
+            first = _ShapeRun(fi, param)
+            for sh in legal:
+                first.run(fi.node.body, sh)
+            outs = {o for o in first.outs if o is not None}
+            feed = sorted(set(legal) | outs)
+            bad = []
+            for sh in feed:
+                run_ = _ShapeRun(fi, param)
+                run_.run(fi.node.body, sh)
+                for node, shape in run_.bad:
+                    bad.append((node, shape, sh in outs and sh not in legal, sh in outs))
+            construct = '%s [re-validation]' % name
+            if bad:
+                node, shape, only_out, is_out = bad[0]
+                origin = ('which this function itself returns%s' % (' for an empty answer list' if shape == 'tuple0' else '')) if is_out \
+                    else 'a documented form of the answers'
+                r.violation(construct, '`%s` is evaluated when %s is %s, %s: constructing the grader again from its own configuration '
+                            '(or with that form) raises IndexError instead of yielding an equal grader'
+                            % (unparse(node), param, SHAPE_TEXT.get(shape, shape), origin), lib.loc(fi, node),
+                            expected='an early return / guard for the empty value before `%s`' % unparse(node))
+            else:
+                r.ok(construct, 'shapes %s (returned: %s) reach no subscript of an empty value' % (feed, sorted(outs) or 'input itself'), fi.loc)
+
+
 # ------------------------------------------------------------------------ self-test
 _ARD_OLD = ("        base = {}\n        config_dicts.reverse()\n        for entry in config_dicts:\n            if entry is not None:\n"
             "                base.update(entry)\n\n        # Report that modified defaults are being used\n"
@@ -2115,6 +2528,9 @@ MUTANTS = [
     Mutant('range-exclusive-pairing', VOL, "if self.max is not None and not v < self.max:", "if self.max is not None and not v <= self.max:", 'D6'),
     Mutant('range-max-check-removed', VOL, "            if self.max is not None and not v <= self.max:\n                raise RangeInvalid(\n                    self.msg or 'value must be at most %s' % self.max)\n",
            "            pass\n", 'D6'),
+    Mutant('F10-revert-empty-tuple-refused', LG, "        elif not answers_tuple:\n            # An empty tuple is the validated form of an empty list (see above)\n            return tuple()\n", "", 'D7'),
+    Mutant('equal-length-check-before-empty-return', LG, "        # Turn answers_tuple into a tuple if it isn't already\n        if isinstance(answers_tuple, list):",
+           "        if len(answers_tuple[0]) == 0:\n            pass\n        if isinstance(answers_tuple, list):", 'D7'),
     Mutant('grade-decimal-range', BASE, "All(numbers.Number, Range(0, 1)),", "All(numbers.Number, Range(0, 2)),", 'D7'),
     Mutant('answer-grade-default', BASE, "Required('grade_decimal', default=1)", "Required('grade_decimal', default=0)", 'D7'),
     Mutant('answer-ok-default', BASE, "Required('ok', default='computed')", "Required('ok', default=True)", 'D7'),
@@ -2169,6 +2585,16 @@ BENIGN = [
            "    for func in blacklist:\n        if func not in default_funcs:\n            raise ConfigError(\"Unknown function in blacklist: {func}\".format(func=func))\n    if blacklist and whitelist:\n        raise ConfigError(\"Cannot whitelist and blacklist at the same time\")\n"),
     Benign('early-return-for-empty-lists', MH, "    if blacklist and whitelist:\n        raise ConfigError(\"Cannot whitelist and blacklist at the same time\")\n",
            "    if not blacklist and not whitelist:\n        return\n    if blacklist and whitelist:\n        raise ConfigError(\"Cannot whitelist and blacklist at the same time\")\n"),
+    Benign('empty-answers-single-early-return', LG, "        elif not answers_tuple:\n            # An empty tuple is the validated form of an empty list (see above)\n            return tuple()\n",
+           "        elif len(answers_tuple) == 0:\n            return ()\n"),
+    Benign('interval-four-entries-any', IVF, "        for answer_list in answer_tuple:\n            for exp in answer_list['expect']:\n                if len(exp) != 4:\n                    raise ConfigError(\"Answer list must have 4 entries: opening bracket, lower bound, \"\n                                      \"upper bound, closing bracket.\")",
+           "        if any(len(exp) != 4 for answer_list in answer_tuple for exp in answer_list['expect']):\n            raise ConfigError(\"Answer list must have 4 entries: opening bracket, lower bound, \"\n                              \"upper bound, closing bracket.\")"),
+    Benign('squarematrices-loop-over-kinds', MSAM,
+           "            if self.config['dimension'] % 2 == 1:  # Odd dimension\n                if self.config['symmetry'] == 'antisymmetric':\n                    # Eigenvalues are all imaginary, so determinant is imaginary\n                    raise ConfigError(\"No unit-determinant antisymmetric matrix exists in odd dimensions\")\n                if self.config['symmetry'] == 'antihermitian':\n                    # Eigenvalues are all imaginary, so determinant is imaginary\n                    raise ConfigError(\"No unit-determinant antihermitian matrix exists in odd dimensions\")",
+           "            symmetry = self.config['symmetry']\n            if self.config['dimension'] % 2 == 1:  # Odd dimension\n                for kind in ('antisymmetric', 'antihermitian'):\n                    if symmetry == kind:\n                        raise ConfigError(\"No unit-determinant {} matrix exists in odd dimensions\".format(kind))"),
+    Benign('linear-comparer-schema-generated', LIN,
+           "    schema_config = Schema({\n        Required('equals', default=1.0): Any(None, Range(0, 1)),\n        Required('proportional', default=0.5): Any(None, Range(0, 1)),\n        Required('offset', default=None): Any(None, Range(0, 1)),\n        Required('linear', default=None): Any(None, Range(0, 1)),",
+           "    schema_config = Schema(dict([(Required(m_, default=c_), Any(None, Range(0, 1))) for m_, c_ in zip(('equals', 'proportional', 'offset', 'linear'), (1.0, 0.5, None, None))])).extend({"),
     Benign('log-in-init', BASE, "        # Validate the configuration\n        self.config = self.validate_config(use_config)",
            "        _n = len(use_config) if isinstance(use_config, dict) else 0\n        self.config = self.validate_config(use_config)"),
 ]
